@@ -711,6 +711,11 @@ class Cx:
             return wrap(res_ty, f(*[arg(a, t) for a, t in zip(args, arg_tys)]))
         b = Builtin(call, name)
         self.spec_env[name] = b
+        if isinstance(res_ty, TSeq) and arg_tys and name not in getattr(self, '_wf_ufs', set()):
+            # a function that yields a list yields one of non-negative length (the sort itself admits any integer there)
+            self._wf_ufs = getattr(self, '_wf_ufs', set()) | {name}
+            xs = [z3.Const('wf%d!%s' % (i, name), t.sort()) for i, t in enumerate(arg_tys)]
+            self.assume(z3.ForAll(xs, res_ty.len(f(*xs)) >= 0, patterns=[f(*xs)]))
         return f
 
     def define(self, name, fn):
